@@ -298,7 +298,10 @@ func resolvePkg(spec string, p *j5sgen.Pkg, f *j5sgen.File) (string, bool) {
 	if spec == "" || spec == p.Name {
 		return p.Name, true
 	}
-	for _, im := range f.Imports {
+	// the import statements write one map in program order: the LAST statement that gives a name wins
+	// (import foo.bar.v1 + import baz.bar.v1: `bar` is baz.bar.v1)
+	for i := len(f.Imports) - 1; i >= 0; i-- {
+		im := f.Imports[i]
 		if strings.Contains(im.Path, "/") {
 			dir := strings.TrimSuffix(path.Dir(im.Path), "/")
 			if strings.ReplaceAll(dir, "/", ".") == spec {
